@@ -13,8 +13,10 @@ from vlib import Suite, zlit, coqlist, blit, opt
 ID = "C01"
 READY = True
 RULE = ("handler scripts generated from one PRNG: 2-6 events, 3-14 registrations with priorities from a small set "
-        "(many ties, '.N' suffixes, relative_priority), conditions, colliding kwargs, programs that post (plain / "
-        "boolean / relay, with and without completion callbacks), add and remove handlers during dispatch; 1-3 "
+        "(many ties, '.N' suffixes, relative_priority; in half of the cases the same procedure registered 2-4 times "
+        "for one event with equal/adjacent priorities), conditions, colliding kwargs, programs that post (plain / "
+        "boolean / relay, with and without completion callbacks), add, replace and remove handlers (by key and by "
+        "method) during dispatch; 1-3 "
         "turns per case from four posting contexts (direct, delay callback, switch handler, timed switch handler). "
         "non-trivial = at least one event posted from inside a handler or callback and at least one dispatch with "
         ">= 2 handlers; distinct by case hash")
@@ -30,7 +32,8 @@ TRUSTED_BASE = [
 ASSUMPTIONS = [
     "handlers do not raise; queue-type events (post_queue, asynchronous) belong to C02 and are not generated",
     "_min_priority / blocking_facility skipping and the BCP monitor branch are not exercised",
-    "handlers run only the scripted actions (post, add_handler, remove_handler_by_key, return a value)",
+    "handlers run only the scripted actions (post, add_handler, replace_handler, remove_handler_by_key, "
+    "remove_handler(method), return a value); handler identity for remove/replace is equality of a callable per procedure",
 ]
 DESIGN_REF = "DESIGN.md section 3, C01"
 TECHNIQUE = "Coq proof over an executable Gallina model + differential correspondence + direct trace oracle"
@@ -85,7 +88,7 @@ def gen_case(rng, tier, i):
     big = tier == "thorough"
     nev = rng.randint(2, 6)
     npid = rng.randint(3, 10 if not big else 14)
-    st = {"key": 0}
+    st = {"key": 0, "burst": []}
     allkeys = []
 
     def radd():
@@ -104,15 +107,48 @@ def gen_case(rng, tier, i):
         cb = rng.randint(1, npid) if rng.random() < 0.35 else None
         return ["post", rng.randint(1, nev), ty, cb, rkw(rng, 3)]
 
+    def rrepl():
+        st["key"] += 1
+        return ["repl", st["key"], rng.randint(1, nev), rng.randint(1, npid), rng.choice([1, 1, 2, 0, 3]),
+                rkw(rng, 1) if rng.random() < 0.5 else []]
+
+    def rburst():
+        """the same procedure registered 2-4 times for one event, equal or adjacent priorities"""
+        e, hp, base = rng.randint(1, nev), rng.randint(1, npid), rng.choice([1, 1, 2, 0])
+        out = []
+        for _ in range(rng.randint(2, 4)):
+            a = radd()
+            a[2], a[3], a[4], a[5], a[6] = e, hp, base + rng.choice([0, 0, 0, 1]), 0, 0
+            if rng.random() < 0.7:
+                a[8] = None
+            out.append(a)
+        st["burst"].append(hp)
+        return out
+
+    def rrmm():
+        if st["burst"] and rng.random() < 0.7:
+            return ["rmm", rng.choice(st["burst"])]
+        return ["rmm", rng.randint(1, npid)]
+
     def ract():
         r = rng.random()
-        if r < 0.55:
+        if r < 0.52:
             return rpost()
-        if r < 0.80:
+        if r < 0.74:
             return radd()
+        if r < 0.82:
+            return rrmm()
+        if r < 0.87:
+            return rrepl()
         return ["rm", rng.randint(1, max(1, st["key"] + 3))]
 
     script = {}
+    late = rng.random() < 0.12       # sometimes post first and register afterwards (fast-path class)
+    acts = [radd() for _ in range(rng.randint(3, 12 if not big else 20))]
+    if rng.random() < 0.5:
+        for _ in range(rng.choice([1, 1, 2])):
+            k = rng.randint(0, len(acts))
+            acts[k:k] = rburst()
     for p in range(1, npid + 1):
         progs = []
         for _ in range(rng.choice([1, 1, 2, 2, 3])):
@@ -122,8 +158,6 @@ def gen_case(rng, tier, i):
     nturn = rng.choice([1, 1, 2, 3])
     turns = []
     setup_pid = npid + 1
-    late = rng.random() < 0.12       # sometimes post first and register afterwards (fast-path class)
-    acts = [radd() for _ in range(rng.randint(3, 12 if not big else 20))]
     posts = [rpost() for _ in range(rng.choice([1, 1, 2, 3]))]
     script[str(setup_pid)] = [{"acts": (posts + acts) if late else (acts + posts), "ret": ["none"]}]
     turns.append([rng.choice([0, 0, 1, 2, 3]), setup_pid])
@@ -176,6 +210,26 @@ def canon_kw(d):
     return sorted([[knum(k), canon_val(v)] for k, v in d.items()])
 
 
+class _Method:
+    """a handler callable that compares equal to every other registration of the same procedure - like two
+    accesses of one bound method do - and still knows which registration it is"""
+
+    def __init__(self, key, pid, e, fn):
+        self._c01key = key
+        self.pid = pid
+        self.e = e
+        self.fn = fn
+
+    def __call__(self, **kwargs):
+        return self.fn(self, kwargs)
+
+    def __eq__(self, other):
+        return isinstance(other, _Method) and other.pid == self.pid
+
+    def __hash__(self):
+        return hash(("c01", self.pid))
+
+
 def run_impl(case):
     if "rig" not in _G:
         worker_init()
@@ -211,10 +265,7 @@ def run_impl(case):
             elif a[0] == "add":
                 _, key, e, hp, prio, suffix, rel, hk, cond = a
 
-                def h(_key=key, _hp=hp, _e=e, **kwargs):
-                    trace.append(["I", _key, _hp, _e, canon_kw(kwargs)])
-                    return ret_val(run_prog_ret(_hp))
-                h._c01key = key
+                h = _Method(key, hp, e, call)
                 if rel != 0:
                     h.relative_priority = rel
                 name = pre + str(e)
@@ -226,7 +277,17 @@ def run_impl(case):
             elif a[0] == "rm":
                 if a[1] in keymap:
                     ev.remove_handler_by_key(keymap[a[1]])
+            elif a[0] == "rmm":
+                ev.remove_handler(_Method(None, a[1], None, None))
+            elif a[0] == "repl":
+                _, key, e, hp, prio, hk = a
+                keymap[key] = ev.replace_handler(pre + str(e), _Method(key, hp, e, call), prio,
+                                                 **{kname(kk): pyval(v) for kk, v in hk})
         return progs[k]["ret"]
+
+    def call(m, kwargs):
+        trace.append(["I", m._c01key, m.pid, m.e, canon_kw(kwargs)])
+        return ret_val(run_prog(m.pid))
 
     def run_prog_ret(pid):
         return run_prog(pid)
@@ -323,6 +384,10 @@ def cact(a):
         c = "None" if cond is None else "(Some (%s,%s))" % (zlit(cond[0]), zlit(cond[1]))
         return "(AAdd %s %s %s %s %s %s %s %s)" % (zlit(key), zlit(e), zlit(hp), zlit(prio), zlit(suffix), zlit(rel),
                                                    ckw(hk), c)
+    if a[0] == "rmm":
+        return "(ARemoveMethod %s)" % zlit(a[1])
+    if a[0] == "repl":
+        return "(AReplace %s %s %s %s %s)" % (zlit(a[1]), zlit(a[2]), zlit(a[3]), zlit(a[4]), ckw(a[5]))
     return "(ARemove %s)" % zlit(a[1])
 
 
@@ -424,6 +489,20 @@ class Acceptor:
                 self.known[key] = r
             elif a[0] == "rm":
                 self.live.pop(a[1], None)
+            elif a[0] == "rmm":
+                for key in [key for key, r in self.live.items() if r["pid"] == a[1]]:
+                    del self.live[key]
+            elif a[0] == "repl":
+                _, key, e, hp, prio, hk = a
+                want = {kk: pyval(v) for kk, v in hk}
+                for k2 in [k2 for k2, r in self.live.items() if r["e"] == e and r["pid"] == hp and
+                           (not hk or {kk: pyval(v) for kk, v in r["kw"]} == want)]:
+                    del self.live[k2]
+                self.seq += 1
+                r = {"key": key, "e": e, "pid": hp, "prio": prio, "seq": self.seq, "kw": kw_merge([], hk),
+                     "cond": None}
+                self.live[key] = r
+                self.known[key] = r
         return progs[k]["ret"]
 
     # -- dispatch bookkeeping ------------------------------------------------------------------------
@@ -471,6 +550,9 @@ class Acceptor:
                     break
                 self.finish()
         except Reject as rj:
+            if key not in self.live and not (c0 is not None and any(x["key"] == key for x in c0["todo"] + c0["done"])):
+                raise Reject("removed-handler-invoked", "handler %d (procedure %d, event %d) was removed before this "
+                             "dispatch began and is still called" % (key, r["pid"], e))
             if c0 is not None and c0["post"]["e"] == e and any(x["key"] == key for x in c0["done"]):
                 raise Reject("handler-twice", "handler %d called twice in one dispatch of event %d" % (key, e))
             if c0 is not None and c0["post"]["e"] == e and key in self.live and \
@@ -632,7 +714,7 @@ def shrink(case):
                 small = None
                 if a[0] == "post" and (a[4] or a[3] is not None):
                     small = ["post", a[1], a[2], None if not a[4] else a[3], []]
-                elif a[0] == "add" and (a[5] or a[6] or a[7] or a[8]):
+                elif a[0] == "add" and len(a) == 9 and (a[5] or a[6] or a[7] or a[8]):
                     small = ["add", a[1], a[2], a[3], a[4], 0, 0, [], None]
                 if small is not None:
                     np = sc[p][:j] + [{"acts": pr["acts"][:k] + [small] + pr["acts"][k + 1:], "ret": pr["ret"]}] + sc[p][j + 1:]
